@@ -69,6 +69,10 @@ func fingerprint(b *sourcebundle.Bundle, root string, sc *bw.Scenario, cl *closu
 				rel(b.LocalPathForRegistrySource(ra, v)), rel(b.LocalPathForRegistrySource(ra2, v))))
 		}
 	}
+	for _, rp := range b.RegistryPackages() {
+		// the order of the version list is part of the answer
+		fp = append(fp, fmt.Sprintf("order %s %v", rp, b.RegistryPackageVersions(rp)))
+	}
 	cs, _ := b.ChecksumV1()
 	fp = append(fp, "checksum "+cs)
 	if cl != nil {
@@ -185,6 +189,17 @@ func runPostOps(sc *bw.Scenario, book *simkit.TapeBook, w *world, cl *closure, r
 	}
 	root := res.r.target
 	orig := fingerprint(res.bundle, root, sc, cl)
+	for _, rp := range res.bundle.RegistryPackages() {
+		first := fmt.Sprint(res.bundle.RegistryPackageVersions(rp))
+		for i := 0; i < 8; i++ {
+			if again := fmt.Sprint(res.bundle.RegistryPackageVersions(rp)); again != first {
+				for _, pr := range []string{"C09", "C13"} {
+					out.Violate(pr, "version-list-order", "unstable", fmt.Sprintf("RegistryPackageVersions(%s) answers %s in one call and %s in another on the same bundle", rp, first, again))
+				}
+				break
+			}
+		}
+	}
 	for _, op := range sc.Post {
 		switch op {
 		case "reopen":
